@@ -32,6 +32,7 @@ H(q) == hist' = hist \o q
 IdxName(i) == IF i = -1 THEN "none" ELSE ToString(i)
 
 EPost(s, r, g) == PostStart(s, r, g) /\ H((IF g THEN <<"gateO|" \o PX(s, r)>> ELSE <<>>) \o <<"post|" \o s \o "|" \o r>>)
+EAbandon(s, r) == HAbandon(s, r) /\ H(<<"abandon|" \o s \o "|" \o r>>)
 EBcast(s, r) == HBcast(s, r) /\ H(<<"upd|" \o s \o "|" \o r>>)
 EEmit(s, r, g) == HEmit(s, r, g) /\ H(IF g THEN <<"gateA|" \o s \o "|" \o r, "emit|" \o s \o "|" \o r>> ELSE <<"emit|" \o s \o "|" \o r>>)
 ESreq(s, r, g) == HSreq(s, r, g) /\ H(IF g THEN <<"gateA|" \o s \o "|" \o r, "sreq|" \o s \o "|" \o r>> ELSE <<"sreq|" \o s \o "|" \o r>>)
@@ -49,7 +50,7 @@ GIdx(g) == CHOOSE i \in 1..Len(GetSeq) : GetSeq[i] = g
 GetOrder(g) == \A g2 \in Gets : GIdx(g2) < GIdx(g) => x[g2].pc # "idle"
 
 GEnv ==
-  \/ \E s \in Sess, r \in Reqs : EAns(s, r) \/ EBcast(s, r) \/ (\E g \in BOOLEAN : EPost(s, r, g) \/ EEmit(s, r, g) \/ ESreq(s, r, g) \/ ERet(s, r, g))
+  \/ \E s \in Sess, r \in Reqs : EAns(s, r) \/ EBcast(s, r) \/ EAbandon(s, r) \/ (\E g \in BOOLEAN : EPost(s, r, g) \/ EEmit(s, r, g) \/ ESreq(s, r, g) \/ ERet(s, r, g))
   \/ \E s \in Sess, g \in BOOLEAN : ESa(s, g)
   \/ \E g \in Gets, s \in Sess, t \in Streams, i \in -1..(MaxEmit + MaxSreq + MaxSa + 3 * MaxBc + 2), hg \in BOOLEAN : GetOrder(g) /\ EGet(g, s, t, i, hg)
   \/ \E e \in Exch : ECut(e)
@@ -68,6 +69,7 @@ HeldCount == Cardinality({p \in Sess \X Origins : wr[p[1]][p[2]].held}) + Cardin
 GateOK(g) == g => HeldCount < 2
 SPost(s, r, g) == Quiet /\ GateOK(g) /\ EPost(s, r, g)
 SBcast(s, r) == Quiet /\ EBcast(s, r)
+SAbandon(s, r) == Quiet /\ EAbandon(s, r)
 SEmit(s, r, g) == Quiet /\ GateOK(g) /\ EEmit(s, r, g)
 SSreq(s, r, g) == Quiet /\ GateOK(g) /\ ESreq(s, r, g)
 SAns(s, r) == Quiet /\ EAns(s, r)
@@ -79,7 +81,7 @@ SDel(s) == Quiet /\ EDel(s)
 SOpen == Quiet /\ EOpen
 SeamNext ==
   \/ GSdk
-  \/ \E s \in Sess, r \in Reqs : SAns(s, r) \/ SBcast(s, r) \/ (\E g \in BOOLEAN : SPost(s, r, g) \/ SEmit(s, r, g) \/ SSreq(s, r, g) \/ SRet(s, r, g))
+  \/ \E s \in Sess, r \in Reqs : SAns(s, r) \/ SBcast(s, r) \/ SAbandon(s, r) \/ (\E g \in BOOLEAN : SPost(s, r, g) \/ SEmit(s, r, g) \/ SSreq(s, r, g) \/ SRet(s, r, g))
   \/ \E s \in Sess, g \in BOOLEAN : SSa(s, g)
   \/ \E g \in Gets, s \in Sess, t \in Streams, i \in -1..(MaxEmit + MaxSreq + MaxSa + 3 * MaxBc + 2), hg \in BOOLEAN : SGet(g, s, t, i, hg)
   \/ \E e \in Exch : SCut(e)
@@ -104,6 +106,7 @@ W_NoTempReplay == \A g \in Gets : x[g].obj # "tmp"
 W_NoHeldWrite == \A s \in Sess, o \in Streams : ~(wr[s][o].pc = "cs" /\ wr[s][o].held)
 W_NoLostToCut == \A s \in Sess, t \in Streams : str[s][t].lastIdx < 0 \/ \E e \in Exch : x[e].st = t /\ x[e].s = s /\ (\E j \in 1..Len(recv[e]) : recv[e][j].idx = str[s][t].lastIdx)
 W_NoJsonBody == \A e \in Posts : \A j \in 1..Len(recv[e]) : recv[e][j].idx # -1
+W_NoCancelNoticeSeen == \A e \in Exch : \A j \in 1..Len(recv[e]) : recv[e][j].pl.k # "cancel"
 W_NoDupRefused == \A e \in Posts : x[e].status # 400
 W_NoBroadcastSeen == \A e \in Exch : \A j \in 1..Len(recv[e]) : recv[e][j].pl.k # "bcast"
 W_NoHeldPost == \A e \in Posts : ~(x[e].pc = "open" /\ x[e].held)
